@@ -330,3 +330,91 @@ func c20ValidRange(p *load.Prog, r *oblig.Run) {
 		o.OK(fmt.Sprintf("%d paths; true only with both ends non-zero", n))
 	}
 }
+
+// c16NoIdentity (R16.k): which expressions may hand their input back
+// unchanged. An accessor, a function call or a constructor that answers with
+// the list it was given instead of the list it computes (the "nothing to do"
+// shortcut for an empty list) yields a value of the wrong type: `.Name` of an
+// empty list of individuals is an empty list of names. Reviewed reference: only
+// the expressions listed below return their input parameter itself.
+func c16NoIdentity(p *load.Prog, r *oblig.Run) {
+	r.Rule("R16.k", "an Evaluate method hands its input back unchanged only where the documented semantics is the identity (reviewed list)", 12)
+	// reviewed on the pinned tree: expression type -> why the input itself may be the result
+	allowed := map[string]string{
+		"Statement": "a pipe with no stage is the identity (the loop over the stages does not run)",
+	}
+	var fns []*ssa.Function
+	for _, fn := range p.Repo {
+		if fn.Name() == "Evaluate" && pkgPathOf(fn) == load.PkgQ && fn.Synthetic == "" && len(fn.Blocks) > 0 && fn.Signature.Recv() != nil {
+			fns = append(fns, fn)
+		}
+	}
+	sort.Slice(fns, func(i, j int) bool { return fns[i].String() < fns[j].String() })
+	for _, fn := range fns {
+		var input *ssa.Parameter
+		for _, prm := range fn.Params[1:] {
+			if _, isIface := prm.Type().Underlying().(*types.Interface); isIface && prm.Name() == "input" {
+				input = prm
+			}
+		}
+		if input == nil {
+			continue
+		}
+		recvName := ""
+		if n := load.NamedOf(fn.Signature.Recv().Type()); n != nil {
+			recvName = n.Obj().Name()
+		}
+		o := r.Add("R16.k", load.FuncName(fn), p.Pos(fn.Pos()), "returns of the input parameter itself")
+		where := ""
+		for _, b := range fn.Blocks {
+			ret, ok := b.Instrs[len(b.Instrs)-1].(*ssa.Return)
+			if !ok || len(ret.Results) == 0 {
+				continue
+			}
+			seen := map[ssa.Value]bool{}
+			var isInput func(v ssa.Value) bool
+			isInput = func(v ssa.Value) bool {
+				if seen[v] {
+					return false
+				}
+				seen[v] = true
+				switch x := v.(type) {
+				case *ssa.Parameter:
+					return x == input
+				case *ssa.Phi:
+					for _, e := range x.Edges {
+						if isInput(e) {
+							return true
+						}
+					}
+				case *ssa.UnOp:
+					// the parameter spilled to memory (assigned later): the initial store only
+					if al, isAl := x.X.(*ssa.Alloc); isAl && x.Op == token.MUL {
+						n := 0
+						var only ssa.Value
+						for _, ref := range *al.Referrers() {
+							if st, isSt := ref.(*ssa.Store); isSt && st.Addr == ssa.Value(al) {
+								n++
+								only = st.Val
+							}
+						}
+						return n == 1 && isInput(only)
+					}
+				}
+				return false
+			}
+			if isInput(ret.Results[0]) {
+				where = p.Pos(ret.Pos())
+			}
+		}
+		why, ok := allowed[recvName]
+		switch {
+		case where == "":
+			o.OK("never returns its input itself")
+		case ok:
+			o.OK("returns its input: " + why)
+		default:
+			o.Fail(load.FuncName(fn) + " hands back the input it was given (return at " + where + ") where it has to answer with the value it computes: for the inputs that take this path (an empty list, a nil slice) the result has the type and content of the input, not of the documented result (an accessor applied to an empty list of individuals gives an empty list of individuals instead of an empty list of names)")
+		}
+	}
+}
